@@ -1,6 +1,7 @@
 import HappyProofs.C14.Flush
 import HappyProofs.C14.LsmProps
 import HappyProofs.C14.LsmObs
+import HappyProofs.C14.LsmFinal
 import HappyModel.C14.Driver
 import HappyProofs.C14.BTreeMain
 import HappyProofs.C14.TxnMain
@@ -57,21 +58,14 @@ theorem abs_compact_partial (S O : List Tab) (k : Key) (hu : ∀ t ∈ S, Uniq t
   rw [lookup_mergeSources_acc k S [] hu]
   cases lookTabs k S.reverse <;> rfl
 
-/-! ### full statements that are not proved (gaps are named in `hv/props/c14.py`) -/
+/-! ### compaction install and the interleaving statement
 
-/-- every frozen memtable is installed before any memtable frozen after it -/
-def FlushesInstallInStartOrder (cfg : Cfg) (y : Sys) (sched : List Nat) : Prop :=
-  ∀ n, let z := Sys.run cfg y (sched.take n)
-    ∀ f ∈ z.frames, ∀ t b, f.pc = .pFlush t b → sched[n]? = some f.id → z.st.imms.head? = some t
-
-/-- `read_regular`, `deleted_stay_deleted`, `scan_sorted_live` in one statement: the model's own
-    observations satisfy the Spec predicate, for every workload and every interleaving of segments -/
-def read_regular_full : Prop :=
-  ∀ (cfg : Cfg) (nkeys : Nat) (ops : List (Nat × OKind)) (oracle : List Bool) (sched : List Nat),
-    DistinctPuts ops → 2 ≤ cfg.maxLevels →
-    let y0 : Sys := { st := St.init cfg oracle, frames := ops.map fun o => { id := o.1, pc := Driver.startPc o.2 } }
-    FlushesInstallInStartOrder cfg y0 sched →
-    judgeOps (obsOf ops (Sys.run cfg y0 sched)) nkeys = none
+Proved in `LsmProps.lean` / `LsmFinal.lean` (imported above) and audited by name:
+`abs_compact` (installing a compaction does not change the abstract map, under `CompactPre`),
+`compactPre_run` / `abs_compact_run` / `compactions_exclusive` (run invariants: SSTables sorted, levels ≥ 1
+key-disjoint, one compaction in flight, tombstones dropped only at the deepest level),
+`abs_refines_log`, `read_regular_sem`, `read_regular` (the former `read_regular_full`, now a theorem: over every
+schedule with `InOrder` — flushes install in start order — the model's observations satisfy `judgeOps`). -/
 
 /-! ### non-vacuity -/
 
